@@ -468,7 +468,7 @@ class _AbstractSampler(_ABC):
         self._write_tuning_settings()
 
         # Create attributes before sampling, such that SWMR works
-        self.samples.write_attribute("write_index", -1)
+        self.samples.write_attribute("write_index", 0)
         self.samples.write_attribute("last_written_sample", -1)
         self.samples.write_attribute("proposals", self.proposals)
         self.samples.write_attribute("acceptance_rate", 0)
